@@ -37,11 +37,29 @@ def _const_int(fn, operand):
 
 def auto_constant_rules(F):
     """A6: division / remainder by a constant that is neither 0 nor -1; A7: overflow check of two constants that do not
-    overflow.  Returns {site key: (ok, text)}"""
+    overflow; A8: with_capacity(len of an existing collection).  Returns {site key: (ok, text)}"""
     out = {}
+    from .. import units as units_mod
+    U = units_mod.Units(F)
     for fn in F.all_fns(tests=False):
         for b in [fn] + fn.promoteds():
             for s in census.sites_of(b):
+                if s["kind"] == "extern" and s["detail"].startswith("with_capacity"):
+                    # A8: a capacity that is the length of an existing collection (or a constant): the allocation is no larger
+                    # than data that already exists
+                    t = b.term(s["bb"])
+                    if t.get("args"):
+                        srcs = set(origins(b, t["args"][-1]))
+                        good = bool(srcs)
+                        for d, p in srcs:
+                            if d[0] == "call" and b.term(d[1])["callee"].get("name") == "len":
+                                continue
+                            if d[0] == "const":
+                                continue
+                            good = False
+                        if good and any(d[0] == "call" for d, p in srcs):
+                            out[s["key"]] = (True, "A8: the capacity is the len() of an existing collection")
+                    continue
                 if s["kind"] != "assert":
                     continue
                 t = b.term(s["bb"])
@@ -67,6 +85,8 @@ def auto_constant_rules(F):
                             dv = None
                         if dv not in (None, 0, -1):
                             out[s["key"]] = (True, "A6: divisor is the constant %s" % divisor)
+                elif msg == "overflow_add" and len(t.get("ops", [])) == 2 and _a9(F, b, t, U):
+                    out[s["key"]] = (True, "A9: usize sum of two quantities that are each at most isize::MAX (byte offsets / lengths of one buffer, len() / count() results, small constants)")
                 elif msg.startswith("overflow_") and len(t.get("ops", [])) == 2:
                     a, c = (_const_int(b, o) for o in t["ops"])
                     if a is not None and c is not None:
@@ -78,6 +98,33 @@ def auto_constant_rules(F):
                         except ValueError:
                             pass
     return out
+
+
+def _a9(F, body, t, U):
+    """both operands of a checked usize addition are bounded by isize::MAX: a byte offset or a length inside the source buffer
+    (UNITS: P / V), the result of len() / count() of existing data, or a constant below 2^62"""
+    def bounded(o):
+        pl = op_place(o)
+        if pl is not None and body.local_ty(pl["l"]).s not in ("usize",) and not pl["p"]:
+            return False
+        ci = _const_int(body, o)
+        if ci is not None:
+            try:
+                return 0 <= int(ci) < 2 ** 62
+            except ValueError:
+                return False
+        srcs = set(origins(body, o))
+        if srcs and all(d[0] == "call" and body.term(d[1])["callee"].get("name") in ("len", "count", "len_utf8") and "indirect" not in body.term(d[1])["callee"] for d, p in srcs):
+            return True
+        if body.file.endswith("frontend/lexer.rs"):
+            try:
+                u = U.unit_of(body, o)
+            except Exception:  # noqa: BLE001
+                u = "?"
+            return u in ("P", "V")
+        return False
+    ops = t["ops"]
+    return bounded(ops[0]) and bounded(ops[1])
 
 
 def borrow_rule(F):
